@@ -748,6 +748,6 @@ pub fn run(r: &mut Run) {
     r.assumptions.push("databases rebuilt from the same operation sequence are identical (ids are allocated sequentially)".into());
 
     let nodes = if r.is_thorough() { 30 } else { 16 };
-    r.subcheck("physical", r.cases(4_000, 200_000), move || pcase(nodes), check_physical);
-    r.subcheck("cache", r.cases(1_500, 60_000), move || hcase(nodes), check_history);
+    r.subcheck("physical", r.cases(10_000, 200_000), move || pcase(nodes), check_physical);
+    r.subcheck("cache", r.cases(4_000, 60_000), move || hcase(nodes), check_history);
 }
